@@ -15,6 +15,7 @@ typedef std::vector<impedance_t> zvec;
 extern "C" {
 __attribute__((noinline)) zvec* e_freespace(size_t n, frequency_t f_rev, frequency_t f_max) { return new zvec(FreeSpaceCSR::__calcImpedance(n, f_rev, f_max)); }
 __attribute__((noinline)) zvec* e_reswall(size_t n, frequency_t f0, frequency_t f_max, double L, double s, double xi, double b) { return new zvec(ResistiveWall::__calcImpedance(n, f0, f_max, L, s, xi, b)); }
+__attribute__((noinline)) zvec* e_parplates(size_t n, frequency_t f0, frequency_t f_max, double g) { return new zvec(ParallelPlatesCSR::__calcImpedance(n, f0, f_max, g)); }
 __attribute__((noinline)) zvec* e_const(size_t n, csrpower_t zr, csrpower_t zi) { return new zvec(ConstImpedance::__calcImpedance(n, impedance_t(zr, zi))); }
 __attribute__((noinline)) Impedance* e_collimator(size_t n, frequency_t f_max, double outer, double inner) { return new CollimatorImpedance(n, f_max, outer, inner); }
 __attribute__((noinline)) Impedance* e_make(size_t n, frequency_t fmax, double R_bend, double frev, double gap, bool use_csr, double s, double xi, double coll, std::string* file)
@@ -33,7 +34,8 @@ int main(int argc, char** argv) {
     if (mode == "snap") {
         size_t n = atoi(argv[3]);
         auto* empty = new std::string(""); auto* v = e_freespace(n, 2.7e6f, 1e12f);
-        snap_root("empty", empty); snap_root("v", v);
+        auto* fname = new std::string("impedance-table.dat");
+        snap_root("empty", empty); snap_root("v", v); snap_root("fname", fname);
         snap_begin(argv[2]);
         { auto* r = e_freespace(n, 2.7e6f, 1e12f); snap_step("e_freespace", {A_i(n), A_f(2.7e6f), A_f(1e12f)}); snap_step("e_vdata", {"ret"}); snap_expect("fs", r->data(), 8 * r->size(), true, 0); }
         { auto* r = e_reswall(n, 2.7e6f, 1e12f, 110.4, 3.5e7, 0.0, 0.016); snap_step("e_reswall", {A_i(n), A_f(2.7e6f), A_f(1e12f), A_d(110.4), A_d(3.5e7), A_d(0.0), A_d(0.016)}); snap_step("e_vdata", {"ret"}); snap_expect("rw", r->data(), 8 * r->size(), true, 0); }
@@ -45,8 +47,14 @@ int main(int argc, char** argv) {
     if (mode == "run") {
         ReplayIn in; if (!in.load(argv[2])) return 2;
         size_t n = in.i("n"); FILE* fo = fopen(argv[3], "w"); std::string none("");
+        if (in.has("table")) {          // a table file with the given samples (re im re im ...)
+            none = std::string(argv[3]) + ".table"; FILE* ft = fopen(none.c_str(), "w"); auto t = in.fv("table");
+            for (size_t i = 0; i + 1 < t.size(); i += 2) fprintf(ft, "%zu %.9g %.9g\n", i / 2, t[i], t[i + 1]);
+            fclose(ft);
+        }
         auto* z = e_make(n, (float)in.d("fmax"), in.d("R_bend"), in.d("frev"), in.d("gap"), in.i("use_csr"), in.d("s"), in.d("xi"), in.d("coll"), &none);
         if (z) dumpz(fo, "make", z->data(), z->size()); else fprintf(fo, "make 0\n");
+        if (z) fprintf(fo, "sizes 2 %zu %zu\n", z->size(), z->nFreqs());
         auto* fs = e_freespace(n, (float)(2.99792458e8 / (6.283185307179586 * in.d("R_bend"))), (float)in.d("fmax")); dumpz(fo, "fs", fs->data(), fs->size());
         double radius = in.d("gap") < 0 ? -in.d("gap") / 2 : in.d("gap") / 2;
         auto* rw = e_reswall(n, (float)in.d("frev"), (float)in.d("fmax"), 2.99792458e8 / in.d("frev"), in.d("s") > 0 ? in.d("s") : 1.0, in.d("xi"), radius); dumpz(fo, "rw", rw->data(), rw->size());
